@@ -185,14 +185,14 @@ class SSHChannel(Generic[AnyStr], SSHPacketHandler):
         self._encoding = encoding
         self._errors = errors
 
+        # Each data type is a byte stream of its own, so incremental
+        # encoders and decoders are kept per data type
+        self._encoders: Dict[DataType, codecs.IncrementalEncoder] = {}
+        self._decoders: Dict[DataType, codecs.IncrementalDecoder] = {}
+
         if encoding:
-            self._encoder: Optional[codecs.IncrementalEncoder] = \
-                codecs.getincrementalencoder(encoding)(errors)
-            self._decoder: Optional[codecs.IncrementalDecoder] = \
-                codecs.getincrementaldecoder(encoding)(errors)
-        else:
-            self._encoder = None
-            self._decoder = None
+            self._new_encoder = codecs.getincrementalencoder(encoding)
+            self._new_decoder = codecs.getincrementaldecoder(encoding)
 
     def get_recv_window(self) -> int:
         """Return the configured receive window for this channel"""
@@ -274,9 +274,9 @@ class SSHChannel(Generic[AnyStr], SSHPacketHandler):
         self._recv_buf_len = 0
         self._recv_paused = False
 
-        # Forget a partial character, as the rest of it won't be decoded
-        if self._decoder:
-            self._decoder.reset()
+        # Forget partial characters, as the rest of them won't be decoded
+        for decoder in self._decoders.values():
+            decoder.reset()
 
         # If recv is close_pending, we know send is already closed
         if self._recv_state == 'close_pending':
@@ -368,8 +368,8 @@ class SSHChannel(Generic[AnyStr], SSHPacketHandler):
             if self._encoding and not exc and \
                     self._recv_state in ('eof_pending', 'close_pending'):
                 try:
-                    assert self._decoder is not None
-                    self._decoder.decode(b'', True)
+                    for decoder in self._decoders.values():
+                        decoder.decode(b'', True)
                 except UnicodeError as unicode_exc:
                     raise ProtocolError(str(unicode_exc)) from None
 
@@ -409,9 +409,14 @@ class SSHChannel(Generic[AnyStr], SSHPacketHandler):
             self._recv_window = self._init_recv_window
 
         if self._encoding:
+            decoder = self._decoders.get(datatype)
+
+            if not decoder:
+                decoder = self._new_decoder(self._errors)
+                self._decoders[datatype] = decoder
+
             try:
-                assert self._decoder is not None
-                decoded_data = cast(AnyStr, self._decoder.decode(data))
+                decoded_data = cast(AnyStr, decoder.decode(data))
             except UnicodeError as unicode_exc:
                 raise ProtocolError(str(unicode_exc)) from None
         else:
@@ -988,8 +993,13 @@ class SSHChannel(Generic[AnyStr], SSHPacketHandler):
             return
 
         if self._encoding:
-            assert self._encoder is not None
-            encoded_data = self._encoder.encode(cast(str, data))
+            encoder = self._encoders.get(datatype)
+
+            if not encoder:
+                encoder = self._new_encoder(self._errors)
+                self._encoders[datatype] = encoder
+
+            encoded_data = encoder.encode(cast(str, data))
         else:
             encoded_data = cast(bytes, data)
 
